@@ -72,7 +72,7 @@ struct QueueAdapter : Adapter {
   Q* q = nullptr; QSpec spec; bool drain = true; std::function<Q*(const Case&)> ctor; std::function<void(Q*, const Case&)> naming;
   QueueAdapter(std::function<Q*(const Case&)> c, QSpec s) : spec(s), ctor(c) {}
   void setup(const Case& c) override {
-    drain = c.geti("drain", 1) != 0;
+    drain = c.geti("drain", 1) != 0 || !K::owning;   // values the queue does not own are always drained by the harness
     q = ctor(c);
     if (naming) { xv::Quiet qq; naming(q, c); }
   }
